@@ -121,9 +121,9 @@ CLAIMED = {
             "That every generated document parses and validates is not decided. arbitrary::Unstructured and petgraph::toposort are trusted.",
             "resolved-callee inventory over rustc MIR, loop-source provenance (may-derive slice), dominating-edge facts, const evaluation", False),
     "C33": ("other",
-            "Structural conditions of the generated response shape: collect_fields groups by alias-or-name, recurses into fragments with the same concrete type under a type-condition test on that concrete type, and appends what a fragment contributes to the group already collected under the same response key (never IndexMap::extend / insert, which replace it); type_condition_matches as a decision table; one concrete type per selection set feeds both field collection and __typename; nulls only under a nullability test; the count and pick passes over an interface's implementers filter identically; union members / enum values are picked from the type's own collection; list values must be generated from the list's item type (the flat generation of nested lists is reported: two known findings).",
-            "The shape of generated data and re-execution over it are not decided. Known findings: generate_field_value flattens nested list types, see known_findings.json.",
-            "decision tables and dominating-edge facts over rustc MIR, typed-HIR guard shape, sibling closure comparison", False),
+            "Structural conditions of the generated response shape: collect_fields groups by alias-or-name, recurses into fragments with the same concrete type under a type-condition test on that concrete type, and appends what a fragment contributes to the group already collected under the same response key (never IndexMap::extend / insert, which replace it); type_condition_matches as a decision table; one concrete type per selection set feeds both field collection and __typename; nulls only under a nullability test; the count and pick passes over an interface's implementers filter identically; union members / enum values are picked from the type's own collection; a field whose declared type has d list levels is generated with exactly d array levels on every generator path (d = 0..3, abstract evaluation; the flat generation of nested lists was found by this clause and repaired).",
+            "The shape of generated data and re-execution over it are not decided. The list-nesting clause is decided by abstract evaluation for list depths 0..3 (the flat-list defect it found is repaired, see known_findings.json 'fixed').",
+            "decision tables and dominating-edge facts over rustc MIR, typed-HIR guard shape, sibling closure comparison, abstract evaluation of the generator over list depths", False),
     "C08": ("other",
             "Coverage and dispatch conditions of the AST printer: all 25 struct printers destructure Self without `..` and hand every field to a writer; Definition (17), Selection (3) and Value (9) variants are each printed by their own printer / syntax with no wildcard; the `{..}` shorthand is taken only under all five conjuncts (nothing written yet, query, no name, no variables, no directives); output_empty is cleared only by State::write and every definition printer calls State::write on every non-error path; items are separated by the *_or_space forms so that the no-indent configuration writes a space where the indented one writes a line break; and the block-string gate shared with C09.",
             "Equality of the re-parsed AST and byte-identical re-serialization are not decided; the CST->AST conversion builds its targets with struct expressions, whose field completeness the compiler enforces.",
